@@ -59,6 +59,8 @@ type Result struct {
 	Hung      bool            `json:"hung,omitempty"`
 	Crash     string          `json:"crash,omitempty"`
 	Plan      json.RawMessage `json:"plan,omitempty"`
+	Fault     string          `json:"fault,omitempty"`
+	FaultKind string          `json:"faultKind,omitempty"`
 }
 
 func errsOut(l gqlerror.List) []ErrOut {
@@ -172,6 +174,34 @@ func Main(newES func(bind func(stub any, directives any, complexity any)) graphq
 			pj, _ := json.Marshal(c.Plan)
 			r.Plan = pj
 			enc.Encode(r)
+		}
+	case "faults":
+		// every operation first runs fault-free; then once per user-code invocation it made, with that
+		// single invocation forced to fail (error / panic alternating; directives: error / block / panic)
+		g := NewGen(es.Schema(), *seed, "clean")
+		for i := 0; i < *n; i++ {
+			c := g.Case(i)
+			base := RunCase(es, c)
+			pj, _ := json.Marshal(c.Plan)
+			base.Plan = pj
+			enc.Encode(base)
+			for k, inv := range base.Log {
+				fc := c
+				fc.ID = fmt.Sprintf("%s-f%d", c.ID, k)
+				key := inv.Path
+				kind := []string{"error", "panic"}[(i+k)%2]
+				if strings.HasPrefix(inv.Hook, "directive:") {
+					key = inv.Path + "@" + strings.TrimPrefix(inv.Hook, "directive:")
+					kind = []string{"error", "block", "panic"}[(i+k)%3]
+				}
+				fc.Plan.Overrides = map[string]Outcome{key: {Kind: kind, Msg: "FAULT:" + key}}
+				r := RunCase(es, fc)
+				pj, _ := json.Marshal(fc.Plan)
+				r.Plan = pj
+				r.Fault = key
+				r.FaultKind = kind
+				enc.Encode(r)
+			}
 		}
 	default:
 		sc := bufio.NewScanner(os.Stdin)
